@@ -612,7 +612,16 @@ func main() {
 			// a receiver that was used before: every byte set, so that anything the decoder leaves alone shows
 			const ff = 0xffffffff
 			st := libaudit.AuditStatus{Mask: ff, Enabled: ff, Failure: ff, PID: ff, RateLimit: ff, BacklogLimit: ff, Lost: ff, Backlog: ff, FeatureBitmap: ff, BacklogWaitTime: ff, BacklogWaitTimeActual: ff}
-			err := st.FromWireFormat(buf)
+			var err error
+			func() {
+				// a panic is an answer no buffer may get ("(Some [])" is what the judge reads as a wrong error or worse)
+				defer func() {
+					if p := recover(); p != nil {
+						err = fmt.Errorf("PANIC: %v", p)
+					}
+				}()
+				err = st.FromWireFormat(buf)
+			}()
 			res := "None"
 			if err == nil {
 				res = fmt.Sprintf("(Some [%d; %d; %d; %d; %d; %d; %d; %d; %d; %d; %d])", uint32(st.Mask), st.Enabled, st.Failure, st.PID, st.RateLimit,
